@@ -5,15 +5,16 @@
   The driver runs this model on the tree the real grammar built from the very DSL text the generator was given, so
   what stays outside the model on the DSL route is the `syn` grammar of `dsl_hir/mod.rs` alone.
 -/
-import DDV.Gen.Lemmas.DslHir
+import DDV.Gen.Lemmas.DslHirConfig
 import DDV.Props.C16Tree
 
 namespace DDV.Props.C16Hir
 open DDV.Gen DDV.Gen.HirLemmas
 
 /-! What the grammar can hand to the lowering at all (`TreesOk`): reset arrays are bytes (`Vec<u8>`), enum numbers
-    are within the `i128` they are parsed into, a ref override carries no layout item, and (an artefact of the
-    abstract lowering's order of checks, see DESIGN §8.7) a field with a single-bit address is a `bool`. -/
+    are within the `i128` they are parsed into, and a ref override carries no layout item (those are rejected by
+    both; `register_override_layout_rejected`). Nothing else is assumed: definitions with several defects at once are
+    rejected by both with the same error, because `lowerDsl` checks in the order the Rust does. -/
 
 /-- The DSL lowering of the generator, run on the tree the grammar builds from the canonical DSL text of a
     definition, is the abstract DSL lowering `lowerDsl` (the function `front_ends_agree`, `same_driver` and every
@@ -61,6 +62,17 @@ theorem duplicate_config_rejected (a b : Access) :
 /-- `start..=4294967295`: the inclusive end is incremented in `u32` (`mir_transform.rs:540`); with overflow checks
     (every debug build of a user's proc macro) that is a panic, not a rejection. -/
 theorem inclusive_end_overflow_panics : hirInclEnd 4294967295 = .error (.panic "add_overflow") := by rfl
+
+/-- Two different front-end defects in one register (an address outside `i64` *and* a non-bool field with a
+    single-bit address): the Rust reads the address first, and so do both routes of the model. -/
+theorem two_defects_same_rejection (g : GlobalConfig) :
+    let o : AObj := .register { name := "R" } none none none (2 ^ 64) 8 none none none none
+      [{ name := "f", base := .uint, start := 0, stop := none }]
+    hirObj g (Dsl.rObj o) = .error (frontErr "front_bad_value") ∧ dslObj g o = .error (frontErr "front_bad_value") := by
+  constructor
+  · rw [obj_render g _ (by simp [TreeOk, ObjOk, HirLemmas.ResetOk, HirLemmas.FieldOk, HirLemmas.ConvOk])]
+    rfl
+  · rfl
 
 /-- Non-vacuity: a definition with a block, a register with an enum field and a reset value, a command, a buffer
     and a ref meets `TreesOk`, and its tree lowers successfully. -/
